@@ -874,4 +874,48 @@ theorem fStringP_text_hole_text (pt : List Char → Option (List Char)) (a b : L
     | cons _ _ => rfl
   simp [this, hpa]
 
+/-- an f-string with any number of holes: segments `text {hole}` and a last text -/
+def renderSegs : List (List Item × List Char) → List Item → List Char → List Char
+  | [], last, rest => spell last ++ '"' :: rest
+  | (a, h) :: segs, last, rest => spell a ++ '{' :: (h ++ '}' :: renderSegs segs last rest)
+
+def partsOf : List (List Item × List Char) → List Item → List Part
+  | [], last => [.text (meaning last)]
+  | (a, h) :: segs, last => .text (meaning a) :: .hole h :: partsOf segs last
+
+/-- what is asked of a hole's source: non-empty, does not begin with `{`, no `}` inside -/
+def HoleOk (h : List Char) : Prop := (∃ c t, h = c :: t ∧ c ≠ '{') ∧ ∀ d ∈ h, d ≠ '}'
+
+theorem fStringP_segs (pt : List Char → Option (List Char)) (segs : List (List Item × List Char))
+    (last : List Item) (rest : List Char) (fuel : Nat)
+    (hseg : ∀ s ∈ segs, (∀ it ∈ s.1, it.lexOk) ∧ spell s.1 ≠ [] ∧ pt (spell s.1) = some (meaning s.1) ∧ HoleOk s.2)
+    (hl : ∀ it ∈ last, it.lexOk) (hnl : spell last ≠ []) (hpl : pt (spell last) = some (meaning last)) :
+    fStringP pt (segs.length + 1 + fuel) (renderSegs segs last rest) = some (partsOf segs last) := by
+  induction segs with
+  | nil =>
+    simp only [List.length_nil, Nat.zero_add, renderSegs, partsOf]
+    rw [Nat.add_comm]
+    exact fStringP_text pt last rest fuel hl hnl hpl
+  | cons s segs ih =>
+    obtain ⟨a, h⟩ := s
+    obtain ⟨ha, hna, hpa, ⟨c, t, rfl, hc⟩, hh⟩ := hseg (a, h) (by simp)
+    have ih' := ih (fun s hs => hseg s (by simp [hs]))
+    simp only [List.length_cons, renderSegs, partsOf]
+    rw [show segs.length + 1 + 1 + fuel = (segs.length + 1 + fuel) + 1 by omega, fStringP]
+    rw [show spell a ++ '{' :: (c :: t ++ '}' :: renderSegs segs last rest) =
+      spell a ++ '{' :: c :: (t ++ '}' :: renderSegs segs last rest) by simp]
+    rw [fStringPart_hole a c _ ha hc]
+    have he : eatWhile (fun d => d != '}') (c :: (t ++ '}' :: renderSegs segs last rest)) =
+        (c :: t, '}' :: renderSegs segs last rest) := by
+      have := eatWhile_all (fun d => d != '}') (c :: t) ('}' :: renderSegs segs last rest)
+        (fun d hd => by simpa using hh d hd) (by simp [Stops])
+      simpa using this
+    simp only [he]
+    rw [ih']
+    have : (spell a).isEmpty = false := by
+      cases h : spell a with
+      | nil => exact absurd h hna
+      | cons _ _ => rfl
+    simp [this, hpa]
+
 end RotoV.FString
